@@ -3,6 +3,7 @@ package sim
 // Scenario family `shared` and C14 — one client instance shared by goroutines.
 
 import (
+	"bytes"
 	"context"
 	"encoding/binary"
 	"errors"
@@ -156,6 +157,7 @@ type shOutcome struct {
 	OverStep bool
 	WireBad  string
 	IOBad    string
+	HeldBad  string
 	InitRegs [4]uint16
 }
 
@@ -358,6 +360,21 @@ func runShared(rc *RunCtx, sc *shScenario) *shOutcome {
 			if tk.WaitUntil("await-connect", func() bool { return connected.Load() }, time.Time{}) == Drained {
 				return
 			}
+			// responses are kept by the caller and looked at again later, while other callers keep using the client
+			var held []packet.Response
+			var heldBytes [][]byte
+			defer func() {
+				for i, r := range held {
+					b := r.Bytes() // in race mode this read is the point: a response must not alias memory the client reuses
+					if !sc.Race && !bytes.Equal(b, heldBytes[i]) {
+						recMu.Lock()
+						if out.HeldBad == "" {
+							out.HeldBad = fmt.Sprintf("a response handed to caller %d re-encoded to %x when it was returned and to %x after later calls on the shared client", ci, trunc(heldBytes[i], 16), trunc(b, 16))
+						}
+						recMu.Unlock()
+					}
+				}
+			}()
 			for oi, op := range ops {
 				if op.Pause > 0 && tk.Sleep("pause", op.Pause) == Drained {
 					return
@@ -401,8 +418,13 @@ func runShared(rc *RunCtx, sc *shScenario) *shOutcome {
 					mon.Unlock()
 				}
 				rec.Return = s.StepNow()
+				if err == nil && !isNilResponse(resp) {
+					held = append(held, resp)
+					if !sc.Race {
+						heldBytes = append(heldBytes, append([]byte(nil), resp.Bytes()...))
+					}
+				}
 				if sc.Race {
-					_ = resp
 					continue // no functional oracle (and no shared harness state) in race mode
 				}
 				mon.Lock()
@@ -516,6 +538,9 @@ func runC14(rc *RunCtx) {
 	}
 	if out.IOBad != "" {
 		rc.Violate("io_outside_call", base, "%s", out.IOBad)
+	}
+	if out.HeldBad != "" {
+		rc.Violate("earlier_response_changed", base, "%s", out.HeldBad)
 	}
 	if sc.Cancels {
 		rc.Probe("runs_with_expiring_contexts")
